@@ -1043,10 +1043,6 @@ def exec_merge(case, ns):
     facts = {"ns": ns, "status": status, "keep": keep, "stdin": stdin, "target": target, "stdout": out,
              "consumed": consumed, "lines": lines, "fx": fx, "aliasing": aliasing}
     obs = run_sx(status, lines, fx)
-    if aliasing:
-        # outside the model's domain (shared nodes between documents): the model is not consulted,
-        # the judge reports the run (known finding matrix_merge_shared_nodes)
-        req = "(cli-outside-model %s)" % obs
     return req, obs, facts
 
 
@@ -1236,10 +1232,6 @@ def exec_set(case, ns0):
     fx = file_effects(reg, target, tb, tm, bakb) if target else []
     facts.update(status=status, target=target, before=tb, stdout=out, fx=fx)
     obs = run_sx(status, lines, fx)
-    if "unparsable" in obs:
-        # the dump oracle produced a text that does not load again: the model (documents as data)
-        # has nothing to say; the judge reports the run
-        req = "(cli-outside-model %s)" % obs
     return req, obs, facts
 
 
@@ -1276,6 +1268,8 @@ def judge_set(case, f):
                 pass
     if st != 0 and changed:
         return "yaml-set failed (status %s) but changed the file" % (st,)
+    if st == 0 and any("unparsable" in x for x in f["fx"]):
+        return "yaml-set exited 0 but left a file that does not load again"
     return None
 
 
@@ -1636,29 +1630,8 @@ def undescribe(d):
     return d
 
 
-def _is_library_diff_finding(case, obs):
-    req, o, facts = _execute(case)
-    v = facts.get("judge")
-    return bool(v) and v.startswith("library: the differ")
-
-
-def _is_shared_nodes_finding(case, obs):
-    req, o, facts = _execute(case)
-    return case["tool"] == "merge" and bool(facts.get("aliasing"))
-
-
-def _is_float_format_finding(case, obs):
-    """yaml-set --format float with a value that has no '.': the library writes `!!float '9'`,
-    which ruamel refuses to load again (ValueError in construct_yaml_float)."""
-    if case["tool"] != "set" or "(write unparsable)" not in obs[0]:
-        return False
-    av = case["argv"]
-    return any(a == "float" and i > 0 and av[i - 1] in ("-F", "--format") for i, a in enumerate(av)) or \
-        "--format=float" in av
-
-
-FINDING_PREDS = {"set_float_format_unloadable": _is_float_format_finding,
-                 "differ_vs_data_equality": _is_library_diff_finding,
-                 "matrix_merge_shared_nodes": _is_shared_nodes_finding}
+# no known findings: the three former ones (differ vs data equality, matrix merges sharing nodes,
+# `--format float` writing an unloadable file) were repaired in the library
+FINDING_PREDS = {}
 
 from c16_gen import chunks, corpus_chunks  # noqa: E402,F401
